@@ -226,10 +226,10 @@ class ProjectKit(AnalysisKit):
 
     def diag_obs(self, d):
         ll = self.ll
-        m = d.fields[ll.fidx('Diagnostic', 'message')]
+        m = deref(d.fields[ll.fidx('Diagnostic', 'message')])
         if not isinstance(m, StrV): raise Unsupported(f'diagnostic message not modelled: {m!r} code={d.fields[ll.fidx("Diagnostic", "code")].variant} at {obs_show(self.pos_tuple(d.fields[ll.fidx("Diagnostic", "pos")]))}')
         msg = tuple(m.b)
-        rel = tuple((self.pos_tuple(r.fields[0]), tuple(r.fields[1].b)) for r in seq_items(d.fields[ll.fidx('Diagnostic', 'related')]))
+        rel = tuple((self.pos_tuple(r.fields[0]), tuple(deref(r.fields[1]).b)) for r in seq_items(d.fields[ll.fidx('Diagnostic', 'related')]))
         return (self.pos_tuple(d.fields[ll.fidx('Diagnostic', 'pos')]), d.fields[ll.fidx('Diagnostic', 'code')].variant, msg, rel)
 
 
